@@ -148,6 +148,8 @@ impl Cache {
             let mut proc = collection.find(&task.pid)?;
             proc.end_time = p.end_time();
             proc.state = p.state().into();
+            // the environment of the process may have been written since it was started
+            proc.env = p.env().to_string();
 
             collection.update(&proc)?;
             self.store.upsert_task(task)?;
